@@ -62,7 +62,7 @@ func extendProp(id, explain string, floors []report.Floor, more func(c *Ctx)) {
 	p := properties[id]
 	run := p.Run
 	p.Explanation += " " + explain
-	p.LevelText += " Also decided (third session): " + explain
+	p.LevelText += " Also decided (added after the seeded rounds): " + explain
 	p.Floors = append(p.Floors, floors...)
 	p.Run = func(c *Ctx) {
 		run(c)
